@@ -26,6 +26,7 @@ type Frame struct {
 	defers  []*ast.CallExpr
 	loops   []*loopCtx
 	loopOrd int
+	loopIdx map[token.Pos]int
 	nres    int
 	resVars []*types.Var
 }
@@ -116,13 +117,56 @@ func (x *Exec) bindParams(fr *Frame, st *State, recv Value, args []Value, call *
 	}
 }
 
-// runBody executes the function body and returns the merged state of all returning paths.
-func (x *Exec) runBody(fr *Frame, st *State) *State {
-	out := x.block(fr, fr.fi.Decl.Body.List, st)
-	if out != nil {
-		x.doReturn(fr, out, nil, fr.fi.Decl.Body.Rbrace)
+// runBody executes the function body; the returning paths are left in fr.returns
+// (joined by epoch).  mergeReturns folds them into one state (used for inlining).
+func (x *Exec) runBody(fr *Frame, st *State) []*State {
+	outs := x.block(fr, fr.fi.Decl.Body.List, []*State{st})
+	for _, o := range outs {
+		x.doReturn(fr, o, nil, fr.fi.Decl.Body.Rbrace)
 	}
-	return x.mergeAll(fr.returns)
+	fr.returns = x.join(fr.returns)
+	return fr.returns
+}
+
+func one(st *State) []*State {
+	if st == nil || isFalse(st) {
+		return nil
+	}
+	return []*State{st}
+}
+
+const maxPaths = 48
+
+// join merges states that live in the same epoch (cheap: a few ite terms) and keeps
+// states of different epochs apart (merging those would put every location under an
+// ite and defeat the quantified invariants assumed for each epoch).
+func (x *Exec) join(sts []*State) []*State {
+	var live []*State
+	for _, s := range sts {
+		if s != nil && !isFalse(s) {
+			live = append(live, s)
+		}
+	}
+	if len(live) <= 1 {
+		return live
+	}
+	var order []*Epoch
+	groups := map[*Epoch][]*State{}
+	for _, s := range live {
+		if _, ok := groups[s.epoch]; !ok {
+			order = append(order, s.epoch)
+		}
+		groups[s.epoch] = append(groups[s.epoch], s)
+	}
+	var out []*State
+	for _, e := range order {
+		out = append(out, x.mergeAll(groups[e]))
+	}
+	if len(out) > maxPaths {
+		x.warn("more than %d paths: merged across epochs", maxPaths)
+		return []*State{x.mergeAll(out)}
+	}
+	return out
 }
 
 func (x *Exec) collectResults(fr *Frame, out *State) Value {
@@ -175,39 +219,43 @@ func (x *Exec) doReturn(fr *Frame, st *State, results []ast.Expr, p token.Pos) {
 		}
 	}
 	// deferred calls, last in first out
+	sts := []*State{st}
 	for i := len(fr.defers) - 1; i >= 0; i-- {
 		d := fr.defers[i]
 		if fl, ok := unparen(d.Fun).(*ast.FuncLit); ok {
 			saved := fr.returns
 			fr.returns = nil
-			o := x.block(fr, fl.Body.List, st)
-			inner := fr.returns
+			sts = x.block(fr, fl.Body.List, sts)
+			sts = append(sts, fr.returns...)
 			fr.returns = saved
-			m := x.mergeAll(append(inner, o))
-			if m == nil {
-				return
-			}
-			*st = *m
 		} else {
-			c.evalCall(d)
+			for _, s2 := range sts {
+				x.ctx(fr, s2).evalCall(d)
+			}
 		}
 		if len(fr.resVars) == len(vals) {
-			for i, rv := range fr.resVars {
-				st.store[fr.retKey(i)] = st.store[fr.keys[rv]]
+			for _, s2 := range sts {
+				for i, rv := range fr.resVars {
+					s2.store[fr.retKey(i)] = s2.store[fr.keys[rv]]
+				}
 			}
 		}
 	}
-	fr.returns = append(fr.returns, st)
+	fr.returns = append(fr.returns, sts...)
 }
 
-func (x *Exec) block(fr *Frame, stmts []ast.Stmt, st *State) *State {
+func (x *Exec) block(fr *Frame, stmts []ast.Stmt, sts []*State) []*State {
 	for _, s := range stmts {
-		if st == nil {
+		if len(sts) == 0 {
 			return nil
 		}
-		st = x.stmt(fr, s, st)
+		var next []*State
+		for _, st := range sts {
+			next = append(next, x.stmt(fr, s, st)...)
+		}
+		sts = x.join(next)
 	}
-	return st
+	return sts
 }
 
 func isFalse(st *State) bool {
@@ -219,7 +267,7 @@ func isFalse(st *State) bool {
 	return false
 }
 
-func (x *Exec) stmt(fr *Frame, s ast.Stmt, st *State) *State {
+func (x *Exec) stmt(fr *Frame, s ast.Stmt, st *State) []*State {
 	if isFalse(st) {
 		return nil
 	}
@@ -227,20 +275,17 @@ func (x *Exec) stmt(fr *Frame, s ast.Stmt, st *State) *State {
 	switch s := s.(type) {
 	case *ast.ExprStmt:
 		c.eval(s.X)
-		if isFalse(st) {
-			return nil
-		}
-		return st
+		return one(st)
 	case *ast.EmptyStmt:
-		return st
+		return one(st)
 	case *ast.BlockStmt:
-		return x.block(fr, s.List, st)
+		return x.block(fr, s.List, []*State{st})
 	case *ast.LabeledStmt:
 		return x.stmt(fr, s.Stmt, st)
 	case *ast.DeclStmt:
 		gd := s.Decl.(*ast.GenDecl)
 		if gd.Tok != token.VAR {
-			return st
+			return one(st)
 		}
 		for _, sp := range gd.Specs {
 			vs := sp.(*ast.ValueSpec)
@@ -265,13 +310,10 @@ func (x *Exec) stmt(fr *Frame, s ast.Stmt, st *State) *State {
 				x.defineVar(fr, st, n, val)
 			}
 		}
-		return st
+		return one(st)
 	case *ast.AssignStmt:
 		x.assignStmt(fr, c, s)
-		if isFalse(st) {
-			return nil
-		}
-		return st
+		return one(st)
 	case *ast.IncDecStmt:
 		cur := c.eval(s.X)
 		T := c.typeOf(s.X)
@@ -283,31 +325,36 @@ func (x *Exec) stmt(fr *Frame, s ast.Stmt, st *State) *State {
 		}
 		c.oblige("overflow", exprText(s.X)+s.Tok.String(), inRange(r, T), s.Pos())
 		x.assign(c, s.X, Scalar(r, T))
-		return st
+		return one(st)
 	case *ast.ReturnStmt:
 		x.doReturn(fr, st, s.Results, s.Pos())
 		return nil
 	case *ast.IfStmt:
+		sts := []*State{st}
 		if s.Init != nil {
-			st = x.stmt(fr, s.Init, st)
-			if st == nil {
-				return nil
+			sts = x.stmt(fr, s.Init, st)
+		}
+		var outs []*State
+		for _, st0 := range sts {
+			for _, b := range x.evalCond(fr, s.Cond, st0) {
+				stT := b.st.Clone()
+				stT.assume(b.v)
+				if !isFalse(stT) {
+					outs = append(outs, x.block(fr, s.Body.List, []*State{stT})...)
+				}
+				stF := b.st.Clone()
+				stF.assume(Not(b.v))
+				if isFalse(stF) {
+					continue
+				}
+				if s.Else != nil {
+					outs = append(outs, x.stmt(fr, s.Else, stF)...)
+				} else {
+					outs = append(outs, stF)
+				}
 			}
-			c = x.ctx(fr, st)
 		}
-		cond := c.eval(s.Cond).S
-		stT := st.Clone()
-		stT.assume(cond)
-		outT := x.block(fr, s.Body.List, stT)
-		stF := st.Clone()
-		stF.assume(Not(cond))
-		var outF *State
-		if s.Else != nil {
-			outF = x.stmt(fr, s.Else, stF)
-		} else {
-			outF = stF
-		}
-		return x.merge(outT, outF)
+		return x.join(outs)
 	case *ast.SwitchStmt:
 		return x.switchStmt(fr, s, st)
 	case *ast.ForStmt:
@@ -343,7 +390,7 @@ func (x *Exec) stmt(fr *Frame, s ast.Stmt, st *State) *State {
 			panic(engineErr("%s: defer inside a loop not supported", x.pos(s.Pos())))
 		}
 		fr.defers = append(fr.defers, s.Call)
-		return st
+		return one(st)
 	case *ast.SelectStmt:
 		return x.selectStmt(fr, s, st)
 	case *ast.SendStmt:
@@ -352,6 +399,70 @@ func (x *Exec) stmt(fr *Frame, s ast.Stmt, st *State) *State {
 		panic(engineErr("%s: go statement not supported (A1: single-threaded use)", x.pos(s.Pos())))
 	}
 	panic(engineErr("%s: statement %T not supported", x.pos(s.Pos()), s))
+}
+
+type condBranch struct {
+	st *State
+	v  *Term
+}
+
+// evalCond evaluates a condition.  Conditions whose operands may change the state
+// through contract calls are split into paths at && / || so that each path keeps
+// its own epoch; pure conditions are evaluated as one term.
+func (x *Exec) evalCond(fr *Frame, e ast.Expr, st *State) []condBranch {
+	e = unparen(e)
+	switch b := e.(type) {
+	case *ast.UnaryExpr:
+		if b.Op == token.NOT && x.mayHavoc(fr, b.X) {
+			bs := x.evalCond(fr, b.X, st)
+			for i := range bs {
+				bs[i].v = Not(bs[i].v)
+			}
+			return bs
+		}
+	case *ast.BinaryExpr:
+		if (b.Op == token.LAND || b.Op == token.LOR) && x.mayHavoc(fr, e) {
+			var out []condBranch
+			for _, l := range x.evalCond(fr, b.X, st) {
+				g := l.v
+				if b.Op == token.LOR {
+					g = Not(l.v)
+				}
+				// right operand evaluated only under g
+				sR := l.st.Clone()
+				sR.assume(g)
+				if !isFalse(sR) {
+					out = append(out, x.evalCond(fr, b.Y, sR)...)
+				}
+				sS := l.st.Clone()
+				sS.assume(Not(g))
+				if !isFalse(sS) {
+					out = append(out, condBranch{sS, BoolLit(b.Op == token.LOR)})
+				}
+			}
+			return out
+		}
+	}
+	v := x.ctx(fr, st).eval(e)
+	if isFalse(st) {
+		return nil
+	}
+	return []condBranch{{st, v.S}}
+}
+
+// mayHavoc: does evaluating e possibly call a contract function that modifies state?
+func (x *Exec) mayHavoc(fr *Frame, e ast.Expr) bool {
+	ws := &writeSet{x: x, fr: fr, keys: map[string]bool{}}
+	ws.walk(e, fr.info, fr.fi.Pkg, 0)
+	if ws.all {
+		return true
+	}
+	for k := range ws.keys {
+		if !strings.HasPrefix(k, "L:") {
+			return true
+		}
+	}
+	return false
 }
 
 func (x *Exec) defineVar(fr *Frame, st *State, n *ast.Ident, val Value) {
@@ -547,12 +658,13 @@ func (x *Exec) assignStaticStruct(c *Ctx, prefix string, v Value) {
 // noteWrite is a hook for the writers table (filled by the syntactic pass instead).
 func (x *Exec) noteWrite(c *Ctx, key string, p token.Pos) {}
 
-func (x *Exec) switchStmt(fr *Frame, s *ast.SwitchStmt, st *State) *State {
+func (x *Exec) switchStmt(fr *Frame, s *ast.SwitchStmt, st *State) []*State {
 	if s.Init != nil {
-		st = x.stmt(fr, s.Init, st)
-		if st == nil {
-			return nil
+		sts := x.stmt(fr, s.Init, st)
+		if len(sts) != 1 {
+			panic(engineErr("%s: switch init splits paths", x.pos(s.Pos())))
 		}
+		st = sts[0]
 	}
 	c := x.ctx(fr, st)
 	var tag *Value
@@ -588,47 +700,62 @@ func (x *Exec) switchStmt(fr *Frame, s *ast.SwitchStmt, st *State) *State {
 		cond := Or(conds...)
 		stT := rest.Clone()
 		stT.assume(cond)
-		outs = append(outs, x.caseBody(fr, cc.Body, stT, lc))
+		outs = append(outs, x.caseBody(fr, cc.Body, stT)...)
 		stF := rest.Clone()
 		stF.assume(Not(cond))
 		rest = stF
+		if isFalse(rest) {
+			rest = nil
+		}
 	}
 	if rest != nil {
 		if deflt != nil {
-			outs = append(outs, x.caseBody(fr, deflt.Body, rest, lc))
+			outs = append(outs, x.caseBody(fr, deflt.Body, rest)...)
 		} else {
 			outs = append(outs, rest)
 		}
 	}
 	outs = append(outs, lc.breaks...)
-	return x.mergeAll(outs)
+	return x.join(outs)
 }
 
-func (x *Exec) caseBody(fr *Frame, body []ast.Stmt, st *State, lc *loopCtx) *State {
+func (x *Exec) caseBody(fr *Frame, body []ast.Stmt, st *State) []*State {
+	if isFalse(st) {
+		return nil
+	}
 	for _, s := range body {
-		if st == nil {
-			return nil
-		}
 		if b, ok := s.(*ast.BranchStmt); ok && b.Tok == token.FALLTHROUGH {
 			panic(engineErr("%s: fallthrough not supported", x.pos(b.Pos())))
 		}
-		st = x.stmt(fr, s, st)
 	}
-	return st
+	return x.block(fr, body, []*State{st})
 }
 
 // ---- loops ---------------------------------------------------------------------
 
+// loopSpec finds the invariants of a loop; loops are numbered in source order.
 func (x *Exec) loopSpec(fr *Frame, p token.Pos) (*LoopSpec, int) {
-	fr.loopOrd++
+	if fr.loopIdx == nil {
+		fr.loopIdx = map[token.Pos]int{}
+		n := 0
+		ast.Inspect(fr.fi.Decl.Body, func(nd ast.Node) bool {
+			switch nd.(type) {
+			case *ast.ForStmt, *ast.RangeStmt:
+				n++
+				fr.loopIdx[nd.Pos()] = n
+			}
+			return true
+		})
+	}
+	ord := fr.loopIdx[p]
 	var ls *LoopSpec
 	if fr.fi.Spec != nil {
-		ls = fr.fi.Spec.Loops[fr.loopOrd]
+		ls = fr.fi.Spec.Loops[ord]
 	}
 	if ls == nil {
 		ls = &LoopSpec{}
 	}
-	return ls, fr.loopOrd
+	return ls, ord
 }
 
 func (x *Exec) checkInvariants(fr *Frame, st *State, ls *LoopSpec, ord int, kind string, p token.Pos) {
@@ -695,13 +822,14 @@ func localName(k string) string {
 	return n
 }
 
-func (x *Exec) forStmt(fr *Frame, s *ast.ForStmt, st *State) *State {
+func (x *Exec) forStmt(fr *Frame, s *ast.ForStmt, st *State) []*State {
 	ls, ord := x.loopSpec(fr, s.Pos())
 	if s.Init != nil {
-		st = x.stmt(fr, s.Init, st)
-		if st == nil {
+		sts := x.stmt(fr, s.Init, st)
+		if len(sts) != 1 {
 			return nil
 		}
+		st = sts[0]
 	}
 	x.checkInvariants(fr, st, ls, ord, "loop-entry", s.Pos())
 	x.havocTargets(fr, st, s.Body, s.Post, s.Cond)
@@ -715,12 +843,15 @@ func (x *Exec) forStmt(fr *Frame, s *ast.ForStmt, st *State) *State {
 		cond = x.ctx(fr, stB).eval(s.Cond).S
 		stB.assume(cond)
 	}
-	outB := x.block(fr, s.Body.List, stB)
-	outB = x.mergeAll(append(lc.continues, outB))
-	if outB != nil && s.Post != nil {
-		outB = x.stmt(fr, s.Post, outB)
-	}
-	if outB != nil {
+	outsB := x.join(append(lc.continues, x.block(fr, s.Body.List, []*State{stB})...))
+	for _, outB := range outsB {
+		if s.Post != nil {
+			ps := x.stmt(fr, s.Post, outB)
+			if len(ps) != 1 {
+				continue
+			}
+			outB = ps[0]
+		}
 		x.checkInvariants(fr, outB, ls, ord, "loop-step", s.Pos())
 	}
 	fr.loops = fr.loops[:len(fr.loops)-1]
@@ -734,10 +865,10 @@ func (x *Exec) forStmt(fr *Frame, s *ast.ForStmt, st *State) *State {
 		x.quiet--
 		stE.assume(Not(ec))
 	}
-	return x.mergeAll(append(lc.breaks, stE))
+	return x.join(append(lc.breaks, stE))
 }
 
-func (x *Exec) rangeStmt(fr *Frame, s *ast.RangeStmt, st *State) *State {
+func (x *Exec) rangeStmt(fr *Frame, s *ast.RangeStmt, st *State) []*State {
 	ls, ord := x.loopSpec(fr, s.Pos())
 	c := x.ctx(fr, st)
 	rv := c.eval(s.X)
@@ -782,16 +913,17 @@ func (x *Exec) rangeStmt(fr *Frame, s *ast.RangeStmt, st *State) *State {
 		stB.assume(Lt(i, n))
 		if valIdent != nil && valIdent.Name != "_" {
 			// live read of the ranged expression (elements are read from the shared backing array)
-			x.quiet++
-			live := x.ctx(fr, stB).eval(s.X)
-			x.quiet--
+			live := rv
+			if !containsCall(s.X) {
+				x.quiet++
+				live = x.ctx(fr, stB).eval(s.X)
+				x.quiet--
+			}
 			ev := Scalar(Select(live.Arr, i), elemTypeOrNil(T))
 			x.valueFacts(ev)
 			bind(stB, valIdent, ev)
 		}
-		outB := x.block(fr, s.Body.List, stB)
-		outB = x.mergeAll(append(lc.continues, outB))
-		if outB != nil {
+		for _, outB := range x.join(append(lc.continues, x.block(fr, s.Body.List, []*State{stB})...)) {
 			ni := Add(i, IntLit(1))
 			outB.store[idxKey] = Scalar(ni, intT)
 			if keyIdent != nil && keyIdent.Name != "_" {
@@ -802,7 +934,7 @@ func (x *Exec) rangeStmt(fr *Frame, s *ast.RangeStmt, st *State) *State {
 		fr.loops = fr.loops[:len(fr.loops)-1]
 		stE := st.Clone()
 		stE.assume(Eq(i, n))
-		return x.mergeAll(append(lc.breaks, stE))
+		return x.join(append(lc.breaks, stE))
 	case KMap:
 		x.checkInvariants(fr, st, ls, ord, "loop-entry", s.Pos())
 		x.havocTargets(fr, st, s.Body)
@@ -817,14 +949,12 @@ func (x *Exec) rangeStmt(fr *Frame, s *ast.RangeStmt, st *State) *State {
 		ev := Scalar(Select(rv.Arr, k.S), m.Elem())
 		x.valueFacts(ev)
 		bind(stB, valIdent, ev)
-		outB := x.block(fr, s.Body.List, stB)
-		outB = x.mergeAll(append(lc.continues, outB))
-		if outB != nil {
+		for _, outB := range x.join(append(lc.continues, x.block(fr, s.Body.List, []*State{stB})...)) {
 			x.checkInvariants(fr, outB, ls, ord, "loop-step", s.Pos())
 		}
 		fr.loops = fr.loops[:len(fr.loops)-1]
 		stE := st.Clone()
-		return x.mergeAll(append(lc.breaks, stE))
+		return x.join(append(lc.breaks, stE))
 	case KScalar:
 		if rv.S.Sort == SInt { // range over integer
 			n := rv.S
@@ -838,17 +968,26 @@ func (x *Exec) rangeStmt(fr *Frame, s *ast.RangeStmt, st *State) *State {
 			fr.loops = append(fr.loops, lc)
 			stB := st.Clone()
 			stB.assume(Lt(i, n))
-			outB := x.block(fr, s.Body.List, stB)
-			outB = x.mergeAll(append(lc.continues, outB))
-			if outB != nil {
+			for _, outB := range x.join(append(lc.continues, x.block(fr, s.Body.List, []*State{stB})...)) {
 				bind(outB, keyIdent, Scalar(Add(i, IntLit(1)), intT))
 				x.checkInvariants(fr, outB, ls, ord, "loop-step", s.Pos())
 			}
 			fr.loops = fr.loops[:len(fr.loops)-1]
 			stE := st.Clone()
 			stE.assume(Ge(i, n))
-			return x.mergeAll(append(lc.breaks, stE))
+			return x.join(append(lc.breaks, stE))
 		}
 	}
 	panic(engineErr("%s: range over %s not supported", x.pos(s.Pos()), exprText(s.X)))
+}
+
+func containsCall(e ast.Expr) bool {
+	found := false
+	ast.Inspect(e, func(n ast.Node) bool {
+		if _, ok := n.(*ast.CallExpr); ok {
+			found = true
+		}
+		return !found
+	})
+	return found
 }
